@@ -420,9 +420,11 @@ def openpgp_contracts(name):
     return [init, enc, dec]
 
 
-def openpgp_factory_contract(name):
+def openpgp_factory_contract(name, part=None):
     bs = cf.BLOCK[name]
     shapes = cf.dict_shapes([], [('key', ['bytes']), ('iv', list(cf.KEYT)), ('IV', ['bytes'])])
+    if part is not None:
+        shapes = '|'.join(shapes.split('|')[part[0]::part[1]])          # entry shapes spread over several units
     tfault = "('key' not in kwargs or ('iv' in kwargs and 'IV' in kwargs))"
     ivlen = "(len(kwargs['IV']) if 'IV' in kwargs else len(kwargs['iv']))"
     vfault = "('key' in kwargs and (not %s or (('iv' in kwargs or 'IV' in kwargs) and %s != %d and %s != %d)))" % (cf.keyok_expr(name, "kwargs['key']"), ivlen, bs, ivlen, bs + 2)
@@ -436,7 +438,7 @@ def openpgp_factory_contract(name):
                     modifies=['kwargs'], opaque=cf.KEY_OPAQUE)
 
 
-def openpgp_registry(name='AES', variant='rw'):
+def openpgp_registry(name='AES', variant='rw', part=None):
     """variant: 'new' = <cipher>.new in CFB mode; 'init' = OpenPgpMode.__init__; 'rw' = encrypt / decrypt; 'factory' = _create_openpgp_cipher"""
     reg = registry('cfb', 'factory' if variant == 'new' else 'rw', name)
     if variant == 'new':
@@ -454,7 +456,7 @@ def openpgp_registry(name='AES', variant='rw'):
         reg.add(new_cfb_contract(name))
         reg.add(cs[0])
         if variant == 'factory':
-            reg.add(openpgp_factory_contract(name))
+            reg.add(openpgp_factory_contract(name, part))
     else:
         reg.add(cs[1])
         reg.add(cs[2])
@@ -556,7 +558,8 @@ def units(prop, tier):
             out.append(pyvc_unit(prop, 'mode.%s.readonly_output' % mode, lambda mode=mode: registry(mode, 'ro'), [qual(mode, 'encrypt'), qual(mode, 'decrypt')]))
         if prop in ('C02', 'C17'):
             out.append(pyvc_unit(prop, 'mode.%s.init' % mode, lambda mode=mode: registry(mode, 'init'), [qual(mode, '__init__')]))
-            names = ('AES', 'DES3') if tier == 'quick' else tuple(cf.ALG)
+            # quick tier: AES (16-byte blocks) for every mode, DES3 (8-byte blocks, parity-adjusted key) for CBC and CFB; thorough: all six ciphers
+            names = (('AES', 'DES3') if mode in ('cbc', 'cfb') else ('AES',)) if tier == 'quick' else tuple(cf.ALG)
             for name in names:
                 out.append(pyvc_unit(prop, 'mode.%s.factory.%s' % (mode, name), lambda mode=mode, name=name: registry(mode, 'factory', name),
                                      [qual(mode, '<factory>')], weight=2))
@@ -570,7 +573,9 @@ def units(prop, tier):
         out.append(pyvc_unit(prop, 'factory.AES.new_cfb', lambda: openpgp_registry('AES', 'new'), [C + 'AES.new']))
         out.append(pyvc_unit(prop, 'mode.openpgp.init', lambda: openpgp_registry('AES', 'init'), [OP + '.__init__'], weight=3))
         out.append(pyvc_unit(prop, 'mode.openpgp.encrypt_decrypt', lambda: openpgp_registry('AES', 'rw'), [OP + '.encrypt', OP + '.decrypt']))
-        out.append(pyvc_unit(prop, 'mode.openpgp.factory', lambda: openpgp_registry('AES', 'factory'), [C + '_mode_openpgp._create_openpgp_cipher'], weight=3))
+        for i in range(2):
+            out.append(pyvc_unit(prop, 'mode.openpgp.factory.part%d' % i, lambda i=i: openpgp_registry('AES', 'factory', part=(i, 2)),
+                                 [C + '_mode_openpgp._create_openpgp_cipher'], weight=2))
         if tier != 'quick':
             out.append(pyvc_unit(prop, 'factory.DES3.new_cfb', lambda: openpgp_registry('DES3', 'new'), [C + 'DES3.new']))
             out.append(pyvc_unit(prop, 'mode.openpgp.init.DES3', lambda: openpgp_registry('DES3', 'init'), [OP + '.__init__'], weight=3))
